@@ -387,3 +387,81 @@ def stalled_proposals(args, d):
         return result
     finally:
         cl.shutdown()
+
+
+def lone_restart_ack(seed=1, own=60, others=200):
+    """Writes through two nodes, then every node is killed and ONE is started alone: with no quorum nothing new can be
+    committed, so nothing new may be acknowledged. Writes are sent to the lone node from the moment it accepts connections
+    (while it is replaying its log). Then it is killed too, the whole cluster is restarted, and every acknowledged write -
+    those from before and any the lone node acknowledged - must be readable through every node.
+    Returns (problems, stats); problems None = inconclusive."""
+    cl = cluster.Cluster(3, trace=False).start_all()
+    stats = {"acked_before": 0, "acked_by_lone_node": 0, "lone_attempts": 0}
+    probs = []
+    try:
+        if cl.wait_serving(timeout=60) is None:
+            return None, dict(stats, inconclusive="cluster did not start serving")
+        n1, n2, n3 = cl.nodes[:3]
+        acked = {}
+        for nd, cnt, pre in ((n2, others, "o"), (n1, own, "w")):
+            c = nd.client(timeout=8.0)
+            for i in range(cnt):
+                k, val = "%s%d" % (pre, i), "v%d-%d" % (seed, i)
+                try:
+                    if c.cmd("SET", k, val, timeout=8.0)[0] == "+":
+                        acked[k] = val
+                except Exception:
+                    return None, dict(stats, inconclusive="a write before the crash got no reply")
+            c.close()
+        stats["acked_before"] = len(acked)
+        for nd in (n1, n2, n3):
+            cl.kill(nd)
+        cl.start_node(n1)
+        t0 = time.time()
+        lone = {}
+        i = 0
+        while time.time() - t0 < 7.0:
+            try:
+                c = n1.client(timeout=1.5)
+            except Exception:
+                time.sleep(0.02)
+                continue
+            k, val = "lone%d" % i, "L%d-%d" % (seed, i)
+            i += 1
+            stats["lone_attempts"] += 1
+            try:
+                r = c.cmd("SET", k, val, timeout=1.5)
+                if r[0] == "+":
+                    lone[k] = val
+            except Exception:
+                pass
+            c.close()
+        stats["acked_by_lone_node"] = len(lone)
+        cl.kill(n1)
+        for nd in (n1, n2, n3):
+            cl.start_node(nd)
+        if cl.wait_serving(nodes=[n1, n2, n3], timeout=90) is None:
+            for nd in (n1, n2, n3):
+                if not nd.alive():
+                    probs.append({"kind": "node-does-not-come-back", "detail": "node %d does not come back after the full restart: %s" % (nd.id, cl.tail(nd, 400))})
+            return (probs or None), dict(stats, inconclusive=None if probs else "the restarted cluster did not serve within 90 s")
+        acked.update(lone)
+        for nd in (n1, n2, n3):
+            c = nd.client(timeout=8.0)
+            missing = []
+            for k, val in acked.items():
+                try:
+                    r = c.cmd("GET", k, timeout=8.0)
+                except Exception:
+                    return None, dict(stats, inconclusive="read-back through node %d got no reply" % nd.id)
+                if r[1] != val.encode():
+                    missing.append((k, r[1]))
+            c.close()
+            if missing:
+                k, got = missing[0]
+                probs.append({"kind": "lost-write", "node": nd.id, "missing": len(missing), "first": k, "acknowledged_by_lone_node": k in lone,
+                              "detail": "%d acknowledged write(s) are not readable through node %d after the full restart, e.g. SET %s %s (%s) reads %r" % (
+                                  len(missing), nd.id, k, acked[k], "acknowledged by node 1 while it was the only node running - no quorum existed" if k in lone else "acknowledged before the crash", got)})
+        return probs, stats
+    finally:
+        cl.shutdown()
